@@ -1,6 +1,7 @@
 import XdocModel.Checker
 import XdocModel.Lemmas.Checker
 import XdocModel.Lemmas.Collapse
+import XdocModel.Lemmas.NormRepr
 import XdocModel.Proofs.C06
 /-!
 # C05 — Output matching equals the documented relation for every flag combination
@@ -272,7 +273,7 @@ example :
       (splitEllipsis (collapse (baseNorm true ".\t...".toList))).map deleteWs := by decide +kernel
 
 /-- ◐ NORMALIZE_REPR (guard: ELLIPSIS off). With ELLIPSIS on the second quote-stripping call
-    uses got as the pattern; not proved. -/
+    uses got as the pattern. Superseded by `mono_normalize_repr` below (no guard at all). -/
 theorem mono_normalize_repr_partial (f : Flags) (g w : Str) (he : f.ellipsis = false)
     (h : checkOutput { f with normRepr := false } g w = true) :
     checkOutput { f with normRepr := true } g w = true := by
@@ -288,6 +289,136 @@ theorem mono_normalize_repr_partial (f : Flags) (g w : Str) (he : f.ellipsis = f
     have h' : norm1 { ellipsis := false, normWs := nw, ignWs := iw, normRepr := true, noBlank := nb, ignDetail := d } false g
         = norm1 { ellipsis := false, normWs := nw, ignWs := iw, normRepr := true, noBlank := nb, ignDetail := d } true w := h
     simp [normalize, normReprStep, checkMatch, h']
+
+/-- with NORMALIZE_REPR on, `check_output` is `nrCore` on the two per-string normal forms -/
+theorem checkOutput_nr_on (f : Flags) (hnr : f.normRepr = true) (g w : Str) :
+    checkOutput f g w = true ↔
+      w = [] ∨ g = w ∨ nrCore f (norm1 f false g) (norm1 f true w) = true := by
+  rw [checkOutput_unfold]; simp [normalize, hnr, nrCore]
+
+/-- ★ NORMALIZE_REPR, no guard: for ALL got/want and ALL settings of the other switches
+    (ELLIPSIS on included). A pair that matches without the quote step is left untouched by both
+    `norm_repr` calls: the first returns got because it already matches; the second (roles swapped,
+    got is the pattern) cannot strip the want's quotes, because a got that matches the want starts
+    with at least as many quotes as the want, and an unquoted want would need even fewer
+    (`normReprStep_of_rev_match`). Brute force over all pairs of length ≤ 6 over
+    `a ␠ . ' " \n` agrees (no counterexample). -/
+theorem mono_normalize_repr (f : Flags) (g w : Str)
+    (h : checkOutput { f with normRepr := false } g w = true) :
+    checkOutput { f with normRepr := true } g w = true := by
+  obtain ⟨e, nw, iw, nr, nb, d⟩ := f
+  rw [checkOutput_nr_off _ rfl] at h
+  rw [checkOutput_nr_on _ rfl]
+  rcases h with h | h | h
+  · exact Or.inl h
+  · exact Or.inr (Or.inl h)
+  · exact Or.inr (Or.inr (nrCore_of_match _ h))
+
+/-- non-vacuity of `mono_normalize_repr` with ELLIPSIS on, quotes at both ends of the want and a
+    got that the want matches only through the wildcard -/
+example :
+    checkOutput { ellipsis := true, normWs := false, ignWs := false, normRepr := false, noBlank := false }
+      "'a b c'".toList "'a ... c'".toList = true ∧
+    checkOutput { ellipsis := true, normWs := false, ignWs := false, normRepr := true, noBlank := false }
+      "'a b c'".toList "'a ... c'".toList = true := by decide +kernel
+
+/-- guard of ELLIPSIS-monotonicity under NORMALIZE_REPR: the normalised want is not a quoted copy
+    of the normalised got that the got, read as a pattern, matches. (In that situation the second
+    `norm_repr` call sees a match of the quoted want against the got-as-pattern, keeps the quotes,
+    and the final comparison of the got against the quoted want fails: K-C05-c.) -/
+def EllipsisNrGuard (f : Flags) (g w : Str) : Prop :=
+  ∀ q, (q = '"' ∨ q = '\'') → unquote? q (norm1 f true w) = some (norm1 f false g) →
+    ellipsisMatch (norm1 f true w) (norm1 f false g) = false
+
+/-- ★ ELLIPSIS (guard: NORMALIZE_REPR off, or `EllipsisNrGuard`), for all got/want and all settings
+    of the other switches. The guard is exact: `mono_ellipsis_nr_guard_exact`. -/
+theorem mono_ellipsis_nr_guarded (f : Flags) (g w : Str)
+    (hg : f.normRepr = false ∨ EllipsisNrGuard f g w)
+    (h : checkOutput { f with ellipsis := false } g w = true) :
+    checkOutput { f with ellipsis := true } g w = true := by
+  rcases hg with hnr | hg
+  · exact mono_ellipsis f g w hnr h
+  obtain ⟨e, nw, iw, nr, nb, d⟩ := f
+  cases nr
+  · exact mono_ellipsis _ g w rfl h
+  rw [checkOutput_nr_on _ rfl] at h ⊢
+  rcases h with h | h | h
+  · exact Or.inl h
+  · exact Or.inr (Or.inl h)
+  · exact Or.inr (Or.inr (nrCore_mono_ellipsis _ _ rfl _ _ hg h))
+
+/-- natural sufficient guard 1: the normalised got contains no `...` -/
+theorem ellipsisNrGuard_of_got_no_dots (f : Flags) (g w : Str)
+    (h : contains dots (norm1 f false g) = false) : EllipsisNrGuard f g w := by
+  intro q _ hu
+  cases hm : ellipsisMatch (norm1 f true w) (norm1 f false g) with
+  | false => rfl
+  | true => exact absurd ((C06.ellipsis_no_dots _ _ h).mp hm) (unquote?_ne hu)
+
+/-- natural sufficient guard 2: the normalised want is not surrounded by a pair of identical quotes -/
+theorem ellipsisNrGuard_of_want_unquoted (f : Flags) (g w : Str)
+    (h1 : unquote? '"' (norm1 f true w) = none) (h2 : unquote? '\'' (norm1 f true w) = none) :
+    EllipsisNrGuard f g w := by
+  intro q hq hu
+  rcases hq with rfl | rfl
+  · rw [h1] at hu; cases hu
+  · rw [h2] at hu; cases hu
+
+/-- ★ ELLIPSIS under NORMALIZE_REPR when the normalised got contains no `...` (the class K-C05-c
+    is exactly excluded: there got is `...`) -/
+theorem mono_ellipsis_nr_got_no_dots (f : Flags) (g w : Str)
+    (hd : contains dots (norm1 f false g) = false)
+    (h : checkOutput { f with ellipsis := false } g w = true) :
+    checkOutput { f with ellipsis := true } g w = true :=
+  mono_ellipsis_nr_guarded f g w (Or.inr (ellipsisNrGuard_of_got_no_dots f g w hd)) h
+
+/-- ★ exactness of `EllipsisNrGuard`: when it is violated (the normalised want is the normalised
+    got in quotes and the got-as-pattern matches it) and the escape route is closed (with ELLIPSIS
+    on, neither the got nor its unquoted version matches the want), the pair matches with ELLIPSIS
+    off and does not match with ELLIPSIS on. -/
+theorem mono_ellipsis_nr_guard_exact (f : Flags) (g w : Str) (hnr : f.normRepr = true)
+    (hw : w ≠ []) (hgw : g ≠ w) {q : Char} (hq : q = '"' ∨ q = '\'')
+    (hu : unquote? q (norm1 f true w) = some (norm1 f false g))
+    (hm : ellipsisMatch (norm1 f true w) (norm1 f false g) = true)
+    (hn : checkMatch { f with ellipsis := true }
+      (normReprStep { f with ellipsis := true } (norm1 f false g) (norm1 f true w)) (norm1 f true w) = false) :
+    checkOutput { f with ellipsis := false } g w = true ∧
+    checkOutput { f with ellipsis := true } g w = false := by
+  obtain ⟨e, nw, iw, nr, nb, d⟩ := f
+  simp only at hnr; subst hnr
+  have key := nrCore_ellipsis_fail
+    { ellipsis := false, normWs := nw, ignWs := iw, normRepr := true, noBlank := nb, ignDetail := d }
+    { ellipsis := true, normWs := nw, ignWs := iw, normRepr := true, noBlank := nb, ignDetail := d }
+    rfl rfl _ _ hq hu hm hn
+  constructor
+  · rw [checkOutput_nr_on _ rfl]; exact Or.inr (Or.inr key.1)
+  · cases hc : checkOutput { ellipsis := true, normWs := nw, ignWs := iw, normRepr := true, noBlank := nb, ignDetail := d } g w with
+    | false => rfl
+    | true =>
+      rcases (checkOutput_nr_on _ rfl g w).mp hc with h | h | h
+      · exact absurd h hw
+      · exact absurd h hgw
+      · exact h.symm.trans key.2
+
+/-! non-vacuity of the guarded ELLIPSIS theorems: instances with NORMALIZE_REPR on where the
+    hypotheses hold, and the instance of the exactness theorem -/
+example :
+    let f : Flags := { ellipsis := false, normWs := false, ignWs := false, normRepr := true, noBlank := false }
+    contains dots (norm1 f false "x = 1".toList) = false ∧
+    checkOutput { f with ellipsis := false } "x = 1".toList "'x = 1'".toList = true ∧
+    checkOutput { f with ellipsis := true } "x = 1".toList "'x = 1'".toList = true := by decide +kernel
+example :
+    let f : Flags := { ellipsis := false, normWs := false, ignWs := false, normRepr := true, noBlank := false }
+    unquote? '"' (norm1 f true "[...]".toList) = none ∧ unquote? '\'' (norm1 f true "[...]".toList) = none ∧
+    checkOutput { f with ellipsis := false } "'[...]'".toList "[...]".toList = true ∧
+    checkOutput { f with ellipsis := true } "'[...]'".toList "[...]".toList = true := by decide +kernel
+example :
+    let f : Flags := { ellipsis := false, normWs := false, ignWs := false, normRepr := true, noBlank := false }
+    unquote? '\'' (norm1 f true "'...'".toList) = some (norm1 f false "...".toList) ∧
+    ellipsisMatch (norm1 f true "'...'".toList) (norm1 f false "...".toList) = true ∧
+    checkMatch { f with ellipsis := true }
+      (normReprStep { f with ellipsis := true } (norm1 f false "...".toList) (norm1 f true "'...'".toList))
+      (norm1 f true "'...'".toList) = false := by decide +kernel
 
 /-- the unguarded monotonicity sentence of the property -/
 def mono_full_statement : Prop :=
@@ -327,6 +458,34 @@ theorem witness_K_C05_d :
       "\t...a".toList ".\t...".toList = true ∧
     checkOutput { ellipsis := true, normWs := true, ignWs := true, normRepr := false, noBlank := false }
       "\t...a".toList ".\t...".toList = false := by decide +kernel
+
+/-- K-C05-c, minimal form : got `"..."`, want `"'...'"`, NORMALIZE_REPR alone: ELLIPSIS off matches
+    (the want's quotes are stripped), on does not (the quoted want matches the got-as-pattern, so the
+    quotes stay). No whitespace switch is involved. -/
+theorem witness_K_C05_c_min :
+    checkOutput { ellipsis := false, normWs := false, ignWs := false, normRepr := true, noBlank := false }
+      "...".toList "'...'".toList = true ∧
+    checkOutput { ellipsis := true, normWs := false, ignWs := false, normRepr := true, noBlank := false }
+      "...".toList "'...'".toList = false := by decide +kernel
+
+/-- K-C05-c, got with a quote : got `"'..."`, want `"''...'"`: the got is not surrounded by quotes
+    and still the class occurs, so no guard on the quotes of the got alone can work; the guard has
+    to speak about the want being a quoted copy of the got (`EllipsisNrGuard`) or about `...` in
+    the got. -/
+theorem witness_K_C05_c_quote :
+    checkOutput { ellipsis := false, normWs := false, ignWs := false, normRepr := true, noBlank := false }
+      "'...".toList "''...'".toList = true ∧
+    checkOutput { ellipsis := true, normWs := false, ignWs := false, normRepr := true, noBlank := false }
+      "'...".toList "''...'".toList = false := by decide +kernel
+
+/-- K-C05-c, no `...` in the raw got : got `". . ."`, want `"'. . .'"`, IGNORE_WHITESPACE +
+    NORMALIZE_REPR: the `...` of the normalised got is created by deleting whitespace, so the
+    guard must speak about the normalised got (as `mono_ellipsis_nr_got_no_dots` does). -/
+theorem witness_K_C05_c_ws :
+    checkOutput { ellipsis := false, normWs := false, ignWs := true, normRepr := true, noBlank := false }
+      ". . .".toList "'. . .'".toList = true ∧
+    checkOutput { ellipsis := true, normWs := false, ignWs := true, normRepr := true, noBlank := false }
+      ". . .".toList "'. . .'".toList = false := by decide +kernel
 
 /-- the unguarded sentence is false of the model (and of the code: the witnesses are replayed on
     the implementation by every run of the check) -/
